@@ -167,11 +167,8 @@ theorem tweak_is_bip341 (L : Embit.EcLaws E) (hn : E.n â‰¤ 2 ^ 256) (hp : E.p â‰
 
 /-! ### `KeysValid` for parsed PSBTs over the same key model -/
 
-/-- the key predicates of `PSBT.parse` over the key model of `opsOf` (`validXpub` plays no role here) -/
-def keyOpsOf (E : Embit.EcOps) (validXpub : Bytes â†’ Bool) : KeyOps where
-  validSec := validSecKey E
-  validX := fun x => (Embit.Keys.PublicKey.fromXonly (toKeys E) x).isSome
-  validXpub := validXpub
+/-! `keyOpsOf` (the key predicates of `PSBT.parse` over the key model of `opsOf`) is defined in Model/SignWithOps.lean
+    (Mathlib-free: the driver's `sign.*` ops parse with it). -/
 
 /-- `from_xonly(x)` IS the parse of `02 â€– x` -/
 theorem keyOpsOf_x (validXpub : Bytes â†’ Bool) (x : Bytes) (h : (keyOpsOf E validXpub).validX x = true) :
